@@ -1,0 +1,13 @@
+//go:build !verif
+
+// Package verifhook carries the instrumentation points used by the model-based
+// verification harness. Without the "verif" build tag every hook is an empty function.
+package verifhook
+
+const Enabled = false
+
+func OnWrite(target any, off int64, p []byte, n int, err error) {}
+
+func OnTruncate(target any, size int64, err error) {}
+
+func Gate(obj any, method, point string) {}
